@@ -141,8 +141,8 @@ let edits_line line = match al (sx_parse line) with
                           ed_index = (match al i with [] -> None | [A 1; A k] -> Some (nat_of_int k) | _ -> failwith "idx") }
       | _ -> failwith "edit") eds in
     let orc = List.map (fun o -> match al o with [] -> None | [A a; A b] -> Some (nat_of_int a, nat_of_int b) | _ -> failwith "orc") orc in
-    let ((((d', ap), sk), out), nn) = apply_edits (to_doc d) (to_str au) (to_str ts) eds orc in
-    Printf.sprintf "%d %d %d %d|%s" (int_of_nat ap) (int_of_nat sk) (int_of_nat out) (int_of_nat nn) (p_doc d')
+    let (((((d', ap), sk), out), nn), xp) = apply_edits_x (to_doc d) (to_str au) (to_str ts) eds orc in
+    Printf.sprintf "%d %d %d %d %d|%s" (int_of_nat ap) (int_of_nat sk) (int_of_nat out) (int_of_nat nn) (int_of_nat xp) (p_doc d')
   | _ -> "ERR"
 (* (((name ctype) ...) ((rtype target) ...)) -> "name:ctype;...|rtype:target;..." *)
 let package_line line = match al (sx_parse line) with
